@@ -234,7 +234,15 @@ def function_yaml(name, k, d, t, g, explicit):
         if i == k - 1:
             for j in range(d):
                 args.append("int d%d = %d" % (j, j))          # (the first default is 0: a falsy default is still a default)
-        if t and i == 0:
+        if t == 3 and i == 0:
+            # two template parameters, the instantiations share their first argument: the documented suffix is the
+            # sequence number (_0, _1) unless the user names one
+            decl = "template<typename T, typename U> void %s(T tt, U uu, %s)" % (name, ", ".join(args))
+            node["cxx_template"] = [{"instantiation": "<int,long>"}, {"instantiation": "<int,double>"}]
+            if explicit:
+                node["cxx_template"][0]["format"] = {"template_suffix": "_ti"}
+                node["cxx_template"][1]["format"] = {"template_suffix": "_td"}
+        elif t and i == 0:
             decl = "template<typename T> void %s(T tt, %s)" % (name, ", ".join(args))
             node["cxx_template"] = [{"instantiation": "<int>"}, {"instantiation": "<double>"}]
             if explicit:
@@ -247,6 +255,10 @@ def function_yaml(name, k, d, t, g, explicit):
             node["fortran_generic"] = [{"decl": "(const int *a0)", "function_suffix": "_gs"},
                                        {"decl": "(const int *a0 +rank(1))", "function_suffix": "_ga"}]
             decl = decl.replace("int a0", "const int *a0")
+        elif g == 1 and i == 0 and not t:
+            # a list of one: still a generic name for its single specific
+            node["fortran_generic"] = [{"decl": "(float a0)", "function_suffix": "_gf"}]
+            decl = decl.replace("int a0", "double a0")
         elif g and i == 0 and not t:
             node["fortran_generic"] = [{"decl": "(float a0)", "function_suffix": "_gf"},
                                        {"decl": "(double a0)", "function_suffix": "_gd"}]
@@ -274,7 +286,11 @@ def predicted_names(scope, atoms, idx, spec):
     if explicit not in (True, "blank") or g == 3:
         return None
     f = atoms["f%d" % idx]
-    cscope = {"lib": "", "conly": "", "ns": atoms["ns"] + "_", "cls": atoms["ns"] + "_" + atoms["cls"] + "_",
+    if atoms.get("_case"):
+        # C_API_case controls the case of C_name_scope: the namespace and class parts of the C name
+        cs = {"lower": str.lower, "upper": str.upper}[atoms["_case"]]
+        atoms = dict(atoms, ns=cs(atoms["ns"]), cls_c=cs(atoms["cls"]))
+    cscope = {"lib": "", "conly": "", "ns": atoms["ns"] + "_", "cls": atoms["ns"] + "_" + atoms.get("cls_c", atoms["cls"]) + "_",
               "deep": atoms["ns"] + "_inner_" + atoms["cls"] + "_", "tcls": atoms["ns"] + "_" + atoms["cls"] + "_int_"}[scope]
     fscope = atoms["cls"] + "_" if scope in ("cls", "deep") else (atoms["cls"] + "_int_" if scope == "tcls" else "")
     cn, fn = set(), set()
@@ -288,7 +304,7 @@ def predicted_names(scope, atoms, idx, spec):
         else:
             sufs = [""]
         tsuf = ["_ti", "_td"] if (t and i == 0) else [""]
-        gsuf = ["_gf", "_gd"] if (g == 2 and i == 0 and not t) else [""]
+        gsuf = ["_gf", "_gd"] if (g == 2 and i == 0 and not t) else (["_gf"] if (g == 1 and i == 0 and not t) else [""])
         for s_ in sufs:
             for ts in tsuf:
                 cn.add("LIB_" + cscope + f + s_ + ts)
@@ -304,7 +320,7 @@ def expected_counts(k, d, t, g):
     for i in range(k):
         arities = (d + 1) if i == k - 1 else 1
         inst = 2 if (t and i == 0) else 1
-        gen = 2 if (g and i == 0 and not t) else 1
+        gen = (1 if g == 1 else 2) if (g and i == 0 and not t) else 1
         cgen = 2 if (g == 3 and i == 0 and not t) else 1
         c += arities * inst * cgen
         f += arities * inst * gen
@@ -354,6 +370,8 @@ def build_library(atoms, scope, funcs):
     return lib
 
 
+ATOMS1C = {"ns": "Qna", "cls": "Qka", "f0": "qfa", "f1": "qfb"}
+ATOMS2C = {"ns": "Wnzz", "cls": "Wkz", "f0": "wfzz", "f1": "wfy"}
 ATOMS1 = {"ns": "qna", "cls": "qka", "f0": "qfa", "f1": "qfb"}
 ATOMS2 = {"ns": "wnzz", "cls": "wkz", "f0": "wfzz", "f1": "wfy"}
 
@@ -425,8 +443,15 @@ def template_of(name, atoms):
 def check_structure(scope, funcs):
     """Returns (violation text or None, info dict with templates)."""
     results = []
-    for atoms in (ATOMS1, ATOMS2):
+    case = None
+    if "-" in scope:
+        # '<scope>-lower' / '<scope>-upper': option C_API_case, namespace and class spelled with capitals
+        scope, case = scope.split("-")
+    for atoms in ((ATOMS1, ATOMS2) if case is None else (ATOMS1C, ATOMS2C)):
         lib = build_library(atoms, scope, funcs)
+        if case:
+            lib["options"]["C_API_case"] = case
+            atoms = dict(atoms, _case=case)
         try:
             r = pipeline.run(lib)
         except Exception as ex:
@@ -478,6 +503,8 @@ def check_structure(scope, funcs):
             return "C++ name %s has %d callable Fortran signatures but %d Fortran specifics %r" % (atoms["f%d" % idx], want_f, len(mine_f), mine_f[:8]), None
         # generic interface lists exactly the specifics of its C++ name
         gens = {gname: procs for gname, procs in names["f_generic"].items() if fname in gname}
+        if g == 1 and k == 1 and not d and not t and scope in ("lib", "ns") and fname not in gens:
+            return "C++ name %s has a fortran_generic list (of one) but no generic interface of that name" % atoms["f%d" % idx], None
         for gname, procs in gens.items():
             d2 = dups(procs)
             if d2:
@@ -524,7 +551,7 @@ F_C_STEM = "c"       # options.F_C_prefix is "c_": known finding 'fortran-c-pref
 RESERVED_METHOD_NAMES = ["eq", "ne", "assign", "associated", "final"]   # helpers Shroud generates for every class
 
 
-def injective(templates, maxlen=8, timeout_ms=20000, reserved_for=()):
+def injective(templates, maxlen=8, timeout_ms=60000, reserved_for=()):
     """For every pair of distinct templates: can they denote the same string for identifiers in the
     claimed domain?  Returns (counterexample or None, queries, unknowns)."""
     keys = sorted({k for t in templates for (kind, k) in t if kind == "atom"})
@@ -580,10 +607,14 @@ def structures(tier):
     single = []
     for k in (1, 2, 3):
         for d in (0, 1, 2):
-            for t in (0, 2):
-                for g in (0, 2, 3):
+            for t in (0, 2, 3):
+                for g in (0, 1, 2, 3):
                     if t and g:
                         continue
+                    if t == 3 and (d or k > 2):
+                        continue        # (two-parameter templates: plain and with one overload beside them)
+                    if g == 1 and (d or k > 1):
+                        continue        # (a one-entry generic list: alone)
                     if g == 3 and k == 1 and d:
                         continue        # rank generics combined with default arguments on one function: not claimed
                     for ex in (False, True, "partial", "blank"):
@@ -611,6 +642,10 @@ def structures(tier):
             if s[2] and s[1] and s[0] == 1:
                 continue        # known finding: function template with trailing default arguments
             out.append((scope, [s]))
+    for scope in ("ns", "cls"):
+        for case in ("lower", "upper"):
+            for s in [(1, 0, 0, 0, True), (2, 1, 0, 0, True), (1, 2, 0, 0, True)]:
+                out.append(("%s-%s" % (scope, case), [s]))
     pair_specs = [(1, 0, 0, 0, False), (2, 0, 0, 0, False), (1, 2, 0, 0, False), (2, 1, 0, 0, True), (1, 0, 2, 0, False), (1, 1, 0, 2, False),
                   (1, 0, 0, 3, False), (1, 2, 0, 0, "partial")]
     if tier == "thorough":
@@ -632,7 +667,7 @@ def run_structs(chunk):
         rec = {"scope": scope, "funcs": funcs, "what": v, "queries": 0, "unknown": 0}
         if v is None:
             for key in ("c_templates", "f_templates"):
-                cex, nq, unk = injective(info[key], reserved_for=("f0", "f1") if scope in ("cls", "deep", "tcls") else ())
+                cex, nq, unk = injective(info[key], reserved_for=("f0", "f1") if scope.split("-")[0] in ("cls", "deep", "tcls") else ())
                 rec["queries"] += nq
                 rec["unknown"] += unk
                 if cex:
@@ -724,6 +759,16 @@ def main():
             v0, _ = check_structure("tcls", [(1, 1, 0, 0, False)])
             if v0:
                 rep.known_finding("%s (%s)" % (k["what_fails"], v0[:120]))
+        elif k["key"] == "overloaded-function-templates":
+            lib0 = {"library": "lib", "cxx_header": "lib.hpp", "options": {"wrap_python": False, "wrap_lua": False}, "declarations": [
+                {"decl": "template<typename T> void qfa(T v)", "cxx_template": [{"instantiation": "<int>"}, {"instantiation": "<double>"}]},
+                {"decl": "template<typename T> void qfa(T v, int n)", "cxx_template": [{"instantiation": "<int>"}, {"instantiation": "<double>"}]}]}
+            try:
+                d0 = dups(emitted_names(pipeline.run(lib0))["c"])
+            except Exception:
+                d0 = []
+            if d0:
+                rep.known_finding("%s (emitted twice: %r)" % (k["what_fails"], sorted(set(d0))))
         elif k["key"] == "fortran-c-prefix-name":
             v0 = confirm_struct({"scope": "lib", "funcs": [[1, 0, 0, 3, False], [1, 0, 0, 3, False]], "cex_atoms": {"f0": "c", "f1": "ga"}})
             if v0:
